@@ -17,6 +17,7 @@ import (
 	"go/types"
 	"os/exec"
 	"path/filepath"
+	"reflect"
 	"regexp"
 	"sort"
 	"strconv"
@@ -1212,21 +1213,125 @@ func (r *Run) nilChecks(fn *ssa.Function) (nP3, nP5 int) {
 	return
 }
 
+// Tables are written per function (that is where each instance was confirmed), but they
+// are applied per *package*: the key used for matching is "<package>:<construct>" and the
+// instance counts of all functions of the package are added up. Moving code between
+// functions or files of a package (helper extraction, inlining) therefore does not turn a
+// confirmed instance into a new one; an additional instance of the construct anywhere in the
+// package still exceeds the count and is reported.
+func pkgKey(key string) string {
+	fn, construct := key, ""
+	if i := strings.Index(key, "/"); i >= 0 {
+		fn, construct = key[:i], key[i+1:]
+	}
+	pkg := fn
+	if i := strings.Index(fn, "."); i >= 0 {
+		pkg = fn[:i]
+	}
+	return pkg + ":" + construct
+}
+
+var normTables = map[*map[string]tabEntry]map[string]tabEntry{}
+
+func normTable(t *map[string]tabEntry) map[string]tabEntry {
+	if n, ok := normTables[t]; ok {
+		return n
+	}
+	n := map[string]tabEntry{}
+	var keys []string
+	for k := range *t {
+		keys = append(keys, k)
+	}
+	sort.Strings(keys)
+	for _, k := range keys {
+		e := (*t)[k]
+		pk := pkgKey(k)
+		if old, ok := n[pk]; ok {
+			if !strings.Contains(old.Reason, e.Reason) {
+				old.Reason += " | " + e.Reason
+			}
+			old.N += e.N
+			n[pk] = old
+		} else {
+			n[pk] = e
+		}
+	}
+	normTables[t] = n
+	return n
+}
+
+func normKinds(t map[string][]string) map[string][]string {
+	n := map[string][]string{}
+	for k, v := range t {
+		pk := pkgKey(k)
+		for _, x := range v {
+			dup := false
+			for _, y := range n[pk] {
+				if x == y {
+					dup = true
+				}
+			}
+			if !dup {
+				n[pk] = append(n[pk], x)
+			}
+		}
+	}
+	return n
+}
+
 // useTable consumes one instance of a table entry; instances beyond the confirmed count are
 // not covered.
 func useTable(r *Run, t map[string]tabEntry, key string) (string, bool) {
-	e, ok := t[key]
+	nt := normTable(tablePtr(t))
+	pk := pkgKey(key)
+	e, ok := nt[pk]
 	if !ok {
 		return "", false
 	}
 	if r.tableUse == nil {
 		r.tableUse = map[string]int{}
 	}
-	r.tableUse[key]++
-	if r.tableUse[key] > e.N {
+	uk := tableName(t) + "|" + pk
+	r.tableUse[uk]++
+	if r.tableUse[uk] > e.N {
 		return "", false
 	}
 	return e.Reason, true
+}
+
+// tablePtr / tableName identify the package-level table variables.
+func tablePtr(t map[string]tabEntry) *map[string]tabEntry {
+	for _, p := range allTables {
+		if reflectSame(*p.t, t) {
+			return p.t
+		}
+	}
+	tmp := t
+	return &tmp
+}
+
+func tableName(t map[string]tabEntry) string {
+	for _, p := range allTables {
+		if reflectSame(*p.t, t) {
+			return p.name
+		}
+	}
+	return "?"
+}
+
+func reflectSame(a, b map[string]tabEntry) bool {
+	return reflect.ValueOf(a).Pointer() == reflect.ValueOf(b).Pointer()
+}
+
+type namedTable struct {
+	name string
+	t    *map[string]tabEntry
+}
+
+var allTables = []namedTable{
+	{"bounds", &boundsTable}, {"assert", &assertTable}, {"panic", &panicTable}, {"div", &divTable}, {"nil", &nilTable},
+	{"err", &errTable}, {"det", &detTable}, {"select", &selectTable}, {"stepLoop", &stepLoopTable},
+	{"planWrite", &planWriteTable}, {"astWrite", &astWriteTable}, {"variableWrite", &variableWriteTable},
 }
 
 // jsonDecodedInto: the address of al is handed to encoding/json (Unmarshal / Decoder.Decode).
